@@ -1572,6 +1572,9 @@ ORACLES = {
     'Projection.history': o_projection_history,
     'independence': o_independence,
 }
+from harness.props import c20_robust  # noqa: E402  (R15 / R16 classes)
+
+ORACLES.update(c20_robust.ORACLES)
 
 
 def run_oracle(ctx, call_name, case, key=None, nontrivial=True):
@@ -2679,6 +2682,16 @@ def correspondence(ctx, scale):
             ctx.tie_broken('correspondence', fn.__name__,
                            'exception while running the implementation: %r\n%s' % (e, traceback.format_exc()[-1200:]))
             ctx.required_branches = []
+    try:                                   # R15 / R16: histories on reused arrays, close-but-distinct values
+        c20_robust.correspondence(ctx, scale == 1)
+    except core.Infra:
+        raise
+    except Exception as e:
+        import traceback
+        ctx.branch('disagree:c20_robust.correspondence')
+        ctx.tie_broken('correspondence', 'R15/R16 histories',
+                       'exception while running the implementation: %r\n%s' % (e, traceback.format_exc()[-1200:]))
+        ctx.required_branches = []
 
 
 # ------------------------------------------------------------------ oracles
@@ -2824,7 +2837,11 @@ def check(ctx):
                 'Hermitian positive definite covariances incl. repeated eigenvalues (identity + rank one, prescribed '
                 'spectra); Hermitian matrices with eigenvalue margin for the selectors; positive reals 1e-15..1e15 '
                 'and dB values -150..150 for the conversions; non-trivial = distinct (function, shape, field, '
-                'generator kind, case index)')
+                'generator kind, case index); R15: deterministic + seeded sets of close-but-distinct values (principal angles '
+                '1.5e-8..1.4e-3, singular values / eigenvalues a relative 1e-6..one ulp apart or of magnitude 1e-9..1e-15, tol '
+                'next to a singular value, conversion arguments next to 1 / 0 / each other), each in sequences of neighbours; '
+                'R16: histories of 2-4 calls per entry point on ONE array per parameter refilled in place, the same array in '
+                'two roles, Projection objects over a reused basis array')
     quick = ctx.tier == 'quick'
     scale = 1 if quick else 250
     core.prove(ctx, MODULE, generated=['C20Conversion'], drivers=[DRIVER], scratch=ctx.scratch)
@@ -2856,6 +2873,7 @@ def check(ctx):
                               'oracle-R12:order-of-listing', 'oracle-R13:derived-objects', 'oracle-R14:count>256']
     ctx.required_branches += ['oracle-R2:array-shape-', 'oracle-R2:array-shape-0', 'oracle-R2:array-shape-2x1x3',
                               'oracle-R3:independence', 'oracle-R4:rejected-calls', 'oracle-R7:object-history']
+    ctx.required_branches += c20_robust.CORR_BRANCHES + c20_robust.ORACLE_BRANCHES
     try:
         correspondence(ctx, scale)
     except core.Infra as e:
@@ -2864,6 +2882,7 @@ def check(ctx):
         ctx.notes.append('correspondence skipped: %s' % e)
         ctx.required_branches = []
     oracles(ctx, scale)
+    c20_robust.oracles(ctx, run_oracle, quick)
     r_class_oracles(ctx, scale if quick else max(1, scale // 5))
     if not quick:
         exhaustive_shapes(ctx)
@@ -2872,6 +2891,9 @@ def check(ctx):
 def search(ctx):
     """deeper failing-input search, used when a proof / correspondence broke"""
     before = len(ctx.failures)
+    c20_robust.oracles(ctx, run_oracle, False)      # R15 / R16 at thorough size
+    if len(ctx.failures) > before:
+        return
     for _ in range(4):
         oracles(ctx, 3)
         if len(ctx.failures) > before:
